@@ -28,6 +28,7 @@ from __future__ import annotations
 import asyncio
 import errno
 import fcntl
+import gc
 import os
 import selectors
 import socket
@@ -76,6 +77,18 @@ def ensure_cert() -> tuple[str, str]:
 
 
 _CTX_CACHE: dict[tuple, ssl.SSLContext] = {}
+_GC_TICK = [0]
+
+
+def gc_tick(every: int = 32) -> None:
+    """Call once per execution.  ``vloop.collect_unhandled`` runs ``gc.collect(1)`` after every execution, which resets the
+    allocation counters, so the interpreter's automatic FULL collection never triggers in a worker; the abandoned loop /
+    task / transport cycles of each execution (each AsyncTLSStreamTransport owns a 256 KiB read buffer) are promoted to
+    the oldest generation and pile up - measured 100 kB per execution, 6 GB per worker after 45 minutes.  A full
+    collection every ``every`` executions keeps a worker at ~25 MB for 0.1 ms per execution."""
+    _GC_TICK[0] += 1
+    if _GC_TICK[0] % every == 0:
+        gc.collect()
 
 
 def _pin(ctx: ssl.SSLContext, version: str | None) -> None:
@@ -882,6 +895,7 @@ def _default_async(version: str, lib_role: str) -> tuple:
         out["ok"] = bytes(got) == pattern("peer", 0, 300) and bytes(relay.peer.received) == pattern("lib", 0, 300)
 
     status, value, _loop = vloop.run(world, main)
+    gc_tick()
     return bool(status == "ok" and out.get("ok")), relay.length_trace()
 
 
